@@ -161,7 +161,7 @@ fn k2_deadline_written_as_remaining_time() {
     set_now(now1);
     let w = codec::serialize(&d, RecDur).unwrap();
     kani::cover!(gt(d, now1), "reachable: future deadline");
-    assert!(!w.other && w.secs.is_some() && w.nanos.is_some(), "C07: written as Duration {secs: u64, nanos: u32}");
+    assert!(!w.other && w.secs.is_some() && w.nanos.is_some(), "C07: written as Duration (secs: u64, nanos: u32)");
     let wrote = (w.secs.unwrap(), w.nanos.unwrap());
     let expect = if ge(d, now1) { diff(d, now1) } else { (0, 0) };
     assert!(wrote == expect, "C07: written duration == deadline - now (saturating)");
